@@ -110,6 +110,7 @@ def extract_identities(f: Func, opvars: Set[str]):
 SITES = {
     "C02": [("src/exo/backend/LoopIR_compiler.py", "simplify_cir", {"e.op"})],
     "C08": [("src/exo/backend/LoopIR_compiler.py", "simplify_cir", {"e.op"})],
+    "C14": [("src/exo/backend/LoopIR_compiler.py", "simplify_cir", {"e.op"})],  # operand offsets of instructions
     "C12": [("src/exo/rewrite/LoopIR_scheduling.py", "DoSimplify.map_binop", {"e.op"})],
 }
 
